@@ -345,6 +345,7 @@ func runC15(r *Report) {
 	c15Bounded(r, "R1")
 	atomicWrites(r, "R1", objNamed("tracker", "locked"), 1)
 	c15TryLockIsCAS(r, tryLock)
+	c15Units(r, "R2")
 }
 
 func c15R3(r *Report) {
@@ -774,4 +775,49 @@ func c15TryLockIsCAS(r *Report, tryLock *ssa.Function) {
 	}
 	r.Check(good, "R1", "tryLock/acquires-by-compare-and-swap", at, "tryLock answers true only as the outcome of CompareAndSwap(&locked, 0, 1)",
 		"tryLock can answer true without having won a compare-and-swap on the busy flag: two announces arriving together (the periodic round and a state query, or two rounds) both take the flag, both contact the tracker, and the second unlock panics or leaves the tracker marked busy")
+}
+
+// c15Units: trackers state their interval in seconds (BEP 3, BEP 15) and "retry in" in minutes; an integer taken from
+// a reply becomes a time.Duration only multiplied by a unit of at least a second.  time.Duration(interval) alone is
+// nanoseconds: every announced interval then falls under the one-minute floor and is ignored.
+func c15Units(r *Report, rule string) {
+	p := r.P
+	n := 0
+	for _, f := range p.SrcFuncs() {
+		if relPkg(f) != "tracker" {
+			continue
+		}
+		allInstrs(f, func(in ssa.Instruction) {
+			cv, ok := in.(*ssa.Convert)
+			if !ok || !typeIs(cv.Type(), "time", "Duration") || typeIs(cv.X.Type(), "time", "Duration") || !isInteger(cv.X.Type()) {
+				return
+			}
+			if _, isC := cv.X.(*ssa.Const); isC {
+				return
+			}
+			n++
+			r.Fn(f)
+			good := len(*cv.Referrers()) > 0
+			for _, ref := range *cv.Referrers() {
+				if _, isDbg := ref.(*ssa.DebugRef); isDbg {
+					continue
+				}
+				bo, isB := ref.(*ssa.BinOp)
+				if !isB || bo.Op != token.MUL {
+					good = false
+					continue
+				}
+				other := bo.Y
+				if other == ssa.Value(cv) {
+					other = bo.X
+				}
+				if k, okk := constInt(other); !okk || k < 1e9 {
+					good = false
+				}
+			}
+			r.Check(good, rule, fmt.Sprintf("%s/Duration(%s)-is-scaled", fname(f), exprStr(cv.X)), cv.Pos(), "an integer from a tracker's reply becomes a Duration only multiplied by time.Second or a larger unit",
+				"a reply's integer (seconds, or minutes) is converted to time.Duration without a unit: it counts nanoseconds, the announced interval falls under the floor and is ignored, and the tracker is announced to far more often than it asked")
+		})
+	}
+	r.Sentinel(rule+".units", n, 2)
 }
